@@ -45,6 +45,8 @@ var (
 		"- ", "1. ", "10) ", "\t", " ", "a", "\n", "> ", "+")
 	XNul = sp("X-nul", "NUL padding and replacement",
 		"\x00", "a", "\n", "\r", "[", "]", "(", ")", "`", "é", " ", "\\")
+	XNulRef = sp("X-nulref", "NUL inside link labels, destinations and titles of definitions and links",
+		"\x00", "a", "[", "]", "]: ", "/u", "\n", "(", ")", " ", "\"")
 	XEol = sp("X-eol", "CR / CRLF / LF paths",
 		"a", "\r", "\n", " ", "\\", "`", ">", "-", "\t")
 	// Inj: attribute-injection alphabet for C07.
@@ -64,10 +66,14 @@ var (
 		"[x][a", "\nb]", "[a\nb]: /u\n", "[a b]", "\n", "> ", "c", "[y](/u \"", "t", "\")", "  ")
 	// Emph5: the five-symbol emphasis alphabet of C11.
 	Emph5 = sp("Emph5", "emphasis: * _ letter space punctuation", "*", "_", "a", " ", ".")
+	// Emph4 / Emph3: smaller alphabets explored deeper (interactions between
+	// several failed and successful closers need 11 and more symbols).
+	Emph4 = sp("Emph4", "emphasis: * _ letter space", "*", "_", "a", " ")
+	Emph3 = sp("Emph3", "emphasis: * _ letter", "*", "_", "a")
 )
 
 // All lists every declared space (for the start-up self test).
-var All = []Space{B, I, L, XHead, XRef, XLink, XCode, XHTML, XEmph, XList, XNul, XEol, Inj, XEnt, XWs, XNest, XMlRef, Emph5}
+var All = []Space{B, I, L, XHead, XRef, XLink, XCode, XHTML, XEmph, XList, XNul, XNulRef, XEol, Inj, XEnt, XWs, XNest, XMlRef, Emph5, Emph4, Emph3}
 
 // ByName finds a space.
 func ByName(name string) (Space, bool) {
